@@ -76,6 +76,9 @@ public:
     std::array<u16, 16> vector_low, vector_high;
     std::array<u16, 16> vector_context_switch;
 
+#ifdef TEAKRA_VERIF
+    friend struct ::TeakraVerifAccess;
+#endif
 private:
     std::function<void(u32)> on_interrupt;
     std::function<void(u32, bool)> on_vectored_interrupt;
